@@ -347,7 +347,13 @@ func errSites(c *RC, fns []*Func, pred func(fn *Func, call *ast.CallExpr, callee
 				cn = expr(call.Fun)
 			}
 			if !pred(fn, call, cn) {
-				continue
+				// a local closure that hands through the error of a selected call
+				// (helper := func(...) error { ...; return tracked(...) })
+				id, isId := call.Fun.(*ast.Ident)
+				if !isId || !closureReturnsSelected(c.P, fn, id.Name, pred) {
+					continue
+				}
+				cn = "closure:" + id.Name
 			}
 			ord[cn]++
 			label := fmt.Sprintf("%s#%d", shortCallee(cn), ord[cn])
@@ -369,4 +375,45 @@ func shortCallee(cn string) string {
 		return cn[i+1:]
 	}
 	return cn
+}
+
+// closureReturnsSelected: name is bound (in fn or an enclosing function) to a
+// function literal one of whose return statements returns a call selected by
+// pred.
+func closureReturnsSelected(pr *Prog, fn *Func, name string, pred func(fn *Func, call *ast.CallExpr, callee string) bool) bool {
+	for f := fn; f != nil && f.Body != nil; f = f.Parent {
+		var lit *Func
+		ast.Inspect(f.Body, func(n ast.Node) bool {
+			if a, ok := n.(*ast.AssignStmt); ok && len(a.Lhs) == 1 && len(a.Rhs) == 1 && expr(a.Lhs[0]) == name {
+				if l, ok := a.Rhs[0].(*ast.FuncLit); ok {
+					lit = pr.FuncOfLit(l)
+				}
+			}
+			return true
+		})
+		if lit == nil {
+			continue
+		}
+		res := false
+		ast.Inspect(lit.Body, func(n ast.Node) bool {
+			r, ok := n.(*ast.ReturnStmt)
+			if !ok {
+				return true
+			}
+			for _, e := range r.Results {
+				if k, ok := ast.Unparen(e).(*ast.CallExpr); ok {
+					cn := lit.Pkg.CalleeName(k)
+					if cn == "" {
+						cn = expr(k.Fun)
+					}
+					if returnsError(lit.Pkg, k) && pred(lit, k, cn) {
+						res = true
+					}
+				}
+			}
+			return true
+		})
+		return res
+	}
+	return false
 }
